@@ -347,9 +347,9 @@ func (w *world) checkMembership(s *mempool.VerifSnapshot, op opCtx, after string
 			// A promotion that runs out of room must leave the rest of the run queued: the cheap plain transaction of a
 			// rich sender that carries the sender's next executable nonce stays executable, and no cap evicts queued
 			// transactions while the submitted transaction itself went to the offered list.
-			if t.Loc == "future" && op.kind == "submit" && op.sender >= 0 && op.sender == t.Sender && loc[op.hash] == "good" && w.validQueued(t, next) {
+			if t.Loc == "future" && ((op.kind == "submit" && op.sender >= 0 && op.sender == t.Sender && loc[op.hash] == "good") || op.kind == "commit") && w.validQueued(t, next) {
 				w.violation("promotion/valid-queued-tx-dropped-at-promotion",
-					fmt.Sprintf("queued tx %s of rich sender %s (nonce %d = the next executable nonce) is neither offered, queued nor committed after %s, whose own transaction was offered", short(h), w.fromStr(t), t.Nonce, after), s,
+					fmt.Sprintf("queued tx %s of rich sender %s (nonce %d = the next executable nonce) is neither offered, queued nor committed after %s", short(h), w.fromStr(t), t.Nonce, after), s,
 					map[string]interface{}{"sender_history": w.slice(w.senderOf(t).Addr)})
 				return
 			}
